@@ -484,24 +484,24 @@ fn main() {
         match kind.as_str() {
             "c03" => {
                 if id % 3 == 2 {
-                    case_cprune(&mut cr, id, &mut out)
+                    guard(id, &mut out, |out| case_cprune(&mut cr, id, out))
                 } else {
-                    case_elim(&mut cr, id, false, &mut out)
+                    guard(id, &mut out, |out| case_elim(&mut cr, id, false, out))
                 }
             }
-            "c06" => case_elim(&mut cr, id, true, &mut out),
+            "c06" => guard(id, &mut out, |out| case_elim(&mut cr, id, true, out)),
             "c05" => {
                 if id % 8 == 7 {
-                    case_remove_axes(&mut cr, id, &mut out)
+                    guard(id, &mut out, |out| case_remove_axes(&mut cr, id, out))
                 } else if id % 3 == 0 {
-                    case_mirror(&mut cr, id, &mut out)
+                    guard(id, &mut out, |out| case_mirror(&mut cr, id, out))
                 } else if id % 3 == 1 {
-                    case_elim(&mut cr, id, false, &mut out)
+                    guard(id, &mut out, |out| case_elim(&mut cr, id, false, out))
                 } else {
-                    case_cprune(&mut cr, id, &mut out)
+                    guard(id, &mut out, |out| case_cprune(&mut cr, id, out))
                 }
             }
-            "c11" => case_fault(&mut cr, id, args.tier == "thorough", &mut out),
+            "c11" => guard(id, &mut out, |out| case_fault(&mut cr, id, args.tier == "thorough", out)),
             _ => {}
         }
         if out.len() > 1 << 20 {
